@@ -314,6 +314,51 @@ func runC17(r *ev.Recorder) {
 			r.Violate(ev.Violation{Signature: "c17:map-filled-after-Tag", What: fmt.Sprintf("Tag(m) with m empty at the call and filled before rendering renders %q, want %q", got, want), Case: ev.JSON(c17Case{Keys: []string{"shared-map"}})})
 		}
 	}
+	// (k) the tag is appended to a field that is already part of the struct (the DSL holds statements
+	// by reference), and to clones of one field template (template lengths 1..9)
+	for _, m := range []map[string]string{{"json": "a"}, {"a": "1", "b": "`"}} {
+		field := jen.Id("F").Int()
+		var kept *jen.Statement
+		st := jen.Type().Id("T").StructFunc(func(g *jen.Group) {
+			g.Add(field)
+			kept = g.Id("G").String()
+		})
+		field.Tag(m)
+		_ = kept
+		got := jh.Raw(st)
+		want := jh.Raw(jen.Type().Id("T").Struct(jen.Id("F").Int().Tag(m), jen.Id("G").String()))
+		r.Eval(1)
+		r.Distinct(fmt.Sprintf("tag-after-add-%d", len(m)))
+		if got.Key() != want.Key() {
+			r.Violate(ev.Violation{Signature: "c17:tag-after-field-was-added", What: fmt.Sprintf("field added to the struct first, Tag(%q) appended afterwards: %q, want %q", m, got, want), Case: ev.JSON(c17Case{Keys: []string{"shared-map"}})})
+		}
+	}
+	for n := 1; n <= 9; n++ {
+		tmpl := jen.Id("F")
+		for i := 1; i < n; i++ {
+			tmpl.Op("*")
+		}
+		tmpl.Int()
+		a := tmpl.Clone().Tag(map[string]string{"json": "a", "xml": "x"})
+		b := tmpl.Clone().Tag(map[string]string{"json": "b"})
+		for i, pair := range [][2]*jen.Statement{{a, nil}, {b, nil}} {
+			want := map[string]string{"json": "a", "xml": "x"}
+			if i == 1 {
+				want = map[string]string{"json": "b"}
+			}
+			got := jh.Raw(jen.Struct(pair[0]))
+			ref := jen.Id("F")
+			for k := 1; k < n; k++ {
+				ref.Op("*")
+			}
+			exp := jh.Raw(jen.Struct(ref.Int().Tag(want)))
+			r.Eval(1)
+			r.Distinct(fmt.Sprintf("tag-on-clone-%d-%d", n, i))
+			if got.Key() != exp.Key() {
+				r.Violate(ev.Violation{Signature: "c17:tag-on-clone", What: fmt.Sprintf("field template of %d items cloned twice with different tags: clone %d renders %q, want %q", n+1, i, got, exp), Case: ev.JSON(c17Case{Keys: []string{"shared-map"}})})
+			}
+		}
+	}
 	// (j) tags rendered stand-alone (Statement.GoString / Render) straight after fragment renders that
 	// failed in gofmt or panicked and were recovered: the literal must be the one a File renders
 	{
